@@ -48,20 +48,21 @@ def generate(ck, units, prefix="C24"):
     return sorted(groups), stats
 
 
-def unit_of_theorem(thm, unit_names):
-    """map a Props theorem name to the traced units it is about (for the failing-input search)"""
-    if not thm:
-        return []
-    t = thm.split(".")[-1]
-    m = re.match(r"(N\d)_(L|E)?_?(\w+)", t)
-    cands = []
-    for u in unit_names:
-        key = u
-        if t.startswith(u) or u.startswith(re.sub(r"_(row|col)\d+$", "", t)):
-            cands.append(u)
-    if not cands and m:
-        N = m.group(1)
-        cands = [u for u in unit_names if u.startswith(N)]
+MODULE_UNITS = {
+    "Props1": ("N1_",), "Props2": ("N2_",), "Props3B": ("N3_L_builder", "N3_E_builder"),
+    "Props3S": ("N3_L_to", "N3_L_from", "N3_E_to", "N3_E_from"), "Props3T": ("N3_L_material",),
+    "Props3TE": ("N3_E_spatial", "N3_E_truesdell"),
+}
+
+
+def unit_of_theorem(fl, unit_names):
+    """traced units a failed obligation is about: by theorem name when it names a unit, else by Props module"""
+    thm = (fl.get("theorem") or "").split(".")[-1]
+    base = re.sub(r"_(row|col)\d+$", "", thm)
+    cands = [u for u in unit_names if thm.startswith(u) or (base and u.startswith(base))]
+    mod = re.sub(r".*/(\w+)\.lean$", r"\1", fl.get("file") or "")
+    for pre in MODULE_UNITS.get(mod, ()):
+        cands += [u for u in unit_names if u.startswith(pre) and u not in cands]
     return cands
 
 
@@ -108,7 +109,7 @@ def run(ck):
     reported = set()
     if not res.ok:
         def search(fl):
-            for u in unit_of_theorem(fl.get("theorem"), names):
+            for u in unit_of_theorem(fl, names):
                 if u in by_unit:
                     reported.add(u)
                     return by_unit[u]
